@@ -153,3 +153,33 @@ Theorem C05_count_predicates_agree_when_settled :
   forall (c : config) (t : table), all_migrated t -> lcounted c t <-> counted c t.
 Proof. exact lcounted_settled. Qed.
 Print Assumptions C05_count_predicates_agree_when_settled.
+
+(* ---- size through deferred migration (LazyRefine.v): [lgood] includes [lcounted]; completing the migration keeps size and the load-factor test ---- *)
+From LC Require Import LazyRefine.
+Theorem C05_finishing_migration_keeps_size :
+  forall (c : config) (hash : N -> N),
+  cfg_ok c ->
+  forall t : table,
+  lgood c hash t ->
+  Refine.good c hash (rehash_with_workers c hash t) /\
+  (forall (k : N) (v : Z), holds (cur (rehash_with_workers c hash t)) k v <-> lholds c t k v) /\
+  bhp (cur (rehash_with_workers c hash t)) = bhp (cur t) /\
+  Refine.lim_same t (rehash_with_workers c hash t) /\
+  rc (rehash_with_workers c hash t) = rc t /\
+  nrem (rehash_with_workers c hash t) = 0 /\
+  length (cur_locks (rehash_with_workers c hash t)) = length (cur_locks t) /\
+  tsize (rehash_with_workers c hash t) = tsize t /\
+  lf_lt_mlf c (rehash_with_workers c hash t) = lf_lt_mlf c t.
+Proof. exact rww_lgood. Qed.
+Print Assumptions C05_finishing_migration_keeps_size.
+
+Theorem C05_clear_with_pending_stripes :
+  forall (c : config) (hash : N -> N) (t : table),
+  lgood c hash t ->
+  Refine.good c hash (cuckoo_clear t) /\
+  (forall (k : N) (v : Z), ~ lholds c (cuckoo_clear t) k v) /\
+  Refine.lim_same t (cuckoo_clear t) /\
+  bhp (cur (cuckoo_clear t)) = bhp (cur t) /\
+  tsize (cuckoo_clear t) = 0 /\ bdead (old (cuckoo_clear t)) = true /\ nrem (cuckoo_clear t) = 0.
+Proof. exact cuckoo_clear_lgood. Qed.
+Print Assumptions C05_clear_with_pending_stripes.
